@@ -389,6 +389,9 @@ func (c *FnCtx) mapStore(st *State, m *Val, u *types.Map, k, v *Val) {
 	if c.nopanic {
 		c.oblig(st, "nilmap", "assignment to entry in nil map", nil, tNot(tEq(m.T, "0")), "")
 	}
+	if vs == SInt && v.S != SInt && v.S != SNone {
+		v = c.box(v)
+	}
 	vt := v.T
 	if v.S == SNone {
 		vt = c.fresh("mapstructval", SInt)
